@@ -694,7 +694,19 @@ impl DPEventLoop {
   }
 
   fn remote_reader_discovered(&mut self, remote_reader: &DiscoveredReaderData) {
+    self.match_remote_reader(remote_reader, None);
+  }
+
+  // only_local_writer = None means all local writers on the topic
+  fn match_remote_reader(
+    &mut self,
+    remote_reader: &DiscoveredReaderData,
+    only_local_writer: Option<EntityId>,
+  ) {
     for writer in self.writers.values_mut() {
+      if only_local_writer.is_some_and(|eid| eid != writer.guid().entity_id) {
+        continue;
+      }
       if remote_reader.subscription_topic_data.topic_name() == writer.topic_name() {
         #[cfg(not(feature = "security"))]
         let match_to_reader = true;
@@ -769,8 +781,20 @@ impl DPEventLoop {
   }
 
   fn remote_writer_discovered(&mut self, remote_writer: &DiscoveredWriterData) {
+    self.match_remote_writer(remote_writer, None);
+  }
+
+  // only_local_reader = None means all local readers on the topic
+  fn match_remote_writer(
+    &mut self,
+    remote_writer: &DiscoveredWriterData,
+    only_local_reader: Option<EntityId>,
+  ) {
     // update writer proxies in local readers
     for reader in self.message_receiver.available_readers.values_mut() {
+      if only_local_reader.is_some_and(|eid| eid != reader.guid().entity_id) {
+        continue;
+      }
       if &remote_writer.publication_topic_data.topic_name == reader.topic_name() {
         #[cfg(not(feature = "security"))]
         let match_to_writer = true;
@@ -875,7 +899,18 @@ impl DPEventLoop {
 
     new_reader.set_requested_deadline_check_timer();
     trace!("Add reader: {:?}", new_reader);
+    let topic_name = new_reader.topic_name().clone();
+    let reader_entity_id = new_reader.guid().entity_id;
     self.message_receiver.add_reader(new_reader);
+
+    // Discovery notifies us about a remote writer only when it hears about it.
+    // Writers that were discovered before this reader existed have to be
+    // matched now, or they never will be.
+    let known_writers =
+      discovery_db_read(&self.discovery_db).external_writers_on_topic(&topic_name);
+    for remote_writer in &known_writers {
+      self.match_remote_writer(remote_writer, Some(reader_entity_id));
+    }
   }
 
   fn remove_local_reader(&mut self, reader_guid: GUID) {
@@ -935,7 +970,16 @@ impl DPEventLoop {
       )
       .expect("Writer command channel registration failed!!");
 
-    self.writers.insert(new_writer.guid().entity_id, new_writer);
+    let topic_name = new_writer.topic_name().clone();
+    let writer_entity_id = new_writer.guid().entity_id;
+    self.writers.insert(writer_entity_id, new_writer);
+
+    // Likewise, match the readers that were discovered before this writer existed.
+    let known_readers =
+      discovery_db_read(&self.discovery_db).external_readers_on_topic(&topic_name);
+    for remote_reader in &known_readers {
+      self.match_remote_reader(remote_reader, Some(writer_entity_id));
+    }
   }
 
   fn remove_local_writer(&mut self, writer_guid: &GUID) {
